@@ -5,6 +5,7 @@
 //! trusted: rule R7 splits or-pattern match arms into one arm per alternative
 //! trusted: R15 (deep slice): remove_stale_payments runs a retain closure under two mutexes; the unit extracts the tick / keep statement of the Fulfilled arm verbatim as a function of (no_remaining_entries, the tick counter); the scan of pending events that computes no_remaining_entries is dropped and not claimed
 //! trusted: R15 (deep slice): OutboundPayments::fail_htlc decodes the onion failure and works on a HashMap entry under a mutex; the unit extracts the whole per-payment block of the Occupied arm verbatim as a function of the payment (checked against the proved contracts of remove / is_fulfilled / mark_abandoned above); `payment.get()/get_mut()` become the reference itself, `payment.remove()` sets a flag, `return;` returns None (R5); is_auto_retryable_now / insert_previously_failed_* are external_body (retry strategy opaque; frame assumed); Event reduced to PaymentFailed; the path events built afterwards are dropped and not claimed
+//! trusted: R15 (deep slice): OutboundPayments::fail_htlc: the last statement (which of the queued events carries the completion action), verbatim as a function of the two events and the action (the event queue is a stub recording push_back)
 //! trusted: R15 (deep slice): OutboundPayments::claim_htlc: the whole per-payment block of the Occupied arm verbatim as a function of the payment and the event queue (a Vec here; push_back -> push); Sha256::hash(..).to_byte_array() is the external_body wrapper sha256 (R8); Event reduced to the three variants used
 //! trusted: R15 (deep slice): OutboundPayments::abandon_payment: the per-payment block verbatim (same conventions as fail_htlc / claim_htlc)
 //! trusted: R15 (deep slice): OutboundPayments::insert_from_monitor_on_startup: the Occupied arm's `match entry.get() { .. }` with the function-local macro new_retryable! (part of the slice), verbatim as a function of the map entry (a stub holding the payment; get / get_mut external_body), hash_set_from_iter([x]) is the one-element set, PaymentAttempts::new() opaque; the Vacant arm (a fresh Retryable from the same macro) is not sliced
@@ -361,6 +362,24 @@ impl PendingOutboundPayment {
 //@end
 
 // ---- a claimed HTLC: PaymentSent is reported exactly once and truthfully (deep R15 slice of OutboundPayments::claim_htlc) ----
+// the events a failed HTLC queues: the monitor is released (completion action) only by the LAST event queued for this resolution
+pub struct EventQueue { pub q: Ghost<Seq<(Event, Option<EventCompletionAction>)>> }
+impl EventQueue { #[verifier::external_body] pub fn push_back(&mut self, e: (Event, Option<EventCompletionAction>)) ensures final(self).q@ == old(self).q@.push(e) { unimplemented!() } }
+//@extract lightning/src/ln/outbound_payment.rs :: impl OutboundPayments :: fn fail_htlc
+//@strip events
+//@slice R15
+    if let Some(ev) = full_failure_ev { $a:straight } else { $b:straight } }
+//@with
+    fn queue_events_of_a_failed_htlc(pending_events: &mut EventQueue, path_failure: Event, full_failure_ev: Option<Event>, completion_action: Option<EventCompletionAction>) { if let Some(ev) = full_failure_ev { $a } else { $b } }
+//@ensures P C03,C10 the-completion-action-that-lets-the-monitor-forget-a-failed-htlc-rides-on-the-last-event-queued-for-it-the-terminal-payment-failed-if-there-is-one
+    final(pending_events).q@ == (match full_failure_ev {
+        Some(ev) => old(pending_events).q@.push((path_failure, None)).push((ev, completion_action)),
+        None => old(pending_events).q@.push((path_failure, completion_action)) }),
+//@mutant monitor_released_by_the_path_failure_before_the_terminal_event
+    pending_events.push_back((path_failure, None)); pending_events.push_back((ev, completion_action));
+//@with
+    pending_events.push_back((path_failure, completion_action)); pending_events.push_back((ev, None));
+//@end
 //@extract lightning/src/ln/outbound_payment.rs :: impl OutboundPayments :: fn claim_htlc
 //@strip events
 //@slice R15
